@@ -20,7 +20,7 @@ OFFSET_POOL = [(0, 0), (1, 0), (-1, 0), (5, 30), (-3, -30), (0, -30),
 OFFSET_GRID = [(h, 0) for h in range(-4, 5)] + [
     (0, 1), (0, -1), (0, 2), (0, -2), (0, 30), (0, -30), (0, 59), (0, -59),
     (5, 30), (5, 45), (-3, -30), (-9, -30), (-9, 0), (5, 0), (12, 0),
-    (-12, 0)]
+    (-12, 0), (14, 0), (99, 59), (-99, -59), (99, 0), (-99, 0)]
 
 
 def huge_year(rng):
@@ -98,8 +98,17 @@ def time_kwargs(rng, form=None, integral=None):
         form = rng.choice(FORMS)
     if form == "24":
         v = rng.random()
-        if v < 0.4:
+        if v < 0.3:
             return {"hour_of_day": 24}
+        if v < 0.4:
+            # the same end of day with an explicit zero fraction (T24,0 /
+            # T24:00,0 / T24:00:00,0): the lower fields stay unset
+            return rng.choice((
+                {"hour_of_day": 24, "hour_of_day_decimal": 0.0},
+                {"hour_of_day": 24, "minute_of_hour": 0,
+                 "minute_of_hour_decimal": 0.0},
+                {"hour_of_day": 24, "minute_of_hour": 0,
+                 "second_of_minute": 0, "second_of_minute_decimal": 0.0}))
         if v < 0.7:
             return {"hour_of_day": 24, "minute_of_hour": 0}
         return {"hour_of_day": 24, "minute_of_hour": 0,
